@@ -1,4 +1,4 @@
 """all translators, in one place (used by setup and by update_baseline)"""
-from . import lru_steps
+from . import lru_steps, sandbox
 
-ALL = [lru_steps.gen]
+ALL = [lru_steps.gen, sandbox.gen]
